@@ -223,7 +223,7 @@ func c11Run(ops []string, seed int) (lines []string, viols []Violation, info map
 				}
 			case "relay-failure":
 				// the relay forgets both mailboxes: streams fail, the connection dies or is re-established
-				sid, _ := st.SrvData.SID()
+				sid := st.CurSID // the rendezvous the current connection runs on
 				a, b := mailbox.GetSID(sid, true), mailbox.GetSID(sid, false)
 				relay.DeleteBox(sidKey(a[:]))
 				relay.DeleteBox(sidKey(b[:]))
